@@ -186,10 +186,21 @@ def registered_once(cg, reach, f):
 def owner_checked_mutexes(prog, reach):
     """mutexes initialised with an attribute object whose type was set to something other than
     the default (RECURSIVE, ERRORCHECK): names of the mutex globals."""
+    def attr_key(f, node):
+        """identity of the attribute object: a global by name, a local by (function, decl id)"""
+        s = strip(node)
+        if s is not None and s.k == 'UnaryOperator' and s['op'] == '&':
+            s = strip(s.ch[0])
+        r = decl_of(s) if s is not None else None
+        if r is None:
+            return None
+        if r.get('staticStorage') and r.get('kind') != 'parm' and not r.get('local'):
+            return ('global', r['name'])
+        return ('local', f.key, r['id'])
     typed_attrs = set()
     for f in prog.functions:
         for c in f.calls('pthread_mutexattr_settype'):
-            a = mutex_of(c)
+            a = attr_key(f, c.ch[1]) if len(c.ch) > 1 else None
             kind = strip(c.ch[2])
             # PTHREAD_MUTEX_NORMAL / DEFAULT == 0
             if a is not None and kind.get('v') != 0:
@@ -199,13 +210,7 @@ def owner_checked_mutexes(prog, reach):
         for c in f.calls('pthread_mutex_init'):
             m = mutex_of(c)
             attr = c.ch[2] if len(c.ch) > 2 else None
-            an = None
-            if attr is not None:
-                s = strip(attr)
-                if s.k == 'UnaryOperator' and s['op'] == '&':
-                    s = strip(s.ch[0])
-                r = decl_of(s)
-                an = r['name'] if r is not None else None
+            an = attr_key(f, attr) if attr is not None else None
             if m is not None and an in typed_attrs:
                 out.add(m)
     return out
